@@ -1,6 +1,6 @@
 (** C25 — Coroutine-local storage is private, map-like, and released with the coroutine.
     Statements only. [run_C25 n ops] is the model of the code as it is (n coroutines, history
-    [ops]); [ok_maps_C25] / [ok_C25] are the property as an oracle over observed results (map
+    [ops]; [old_run_C25]: the code before the repair of finding #27); [ok_maps_C25] / [ok_C25] are the property as an oracle over observed results (map
     clauses / map clauses + release on drop). *)
 From OCV Require Import Base.Prelude Misc.Local Misc.LocalOracle Misc.LocalProofs Misc.LocalGhost.
 From Coq Require Import Permutation.
@@ -25,43 +25,50 @@ Theorem C25_private : forall n ops c,
   obs_of c ops (run_C25 n ops) = run_C25 n (ops_of c ops).
 Proof. exact private. Qed.
 
-(** release on drop fails on the current code (finding #27) ... *)
-Theorem C25_refuted_values_leaked_on_drop :
-  exists n ops, wf_C25 n ops = true /\ ok_C25 n ops (run_C25 n ops) = false.
-Proof. exact refuted_values_leaked_on_drop. Qed.
+(** the whole property, release on drop included: every call returns what the functional map says
+    and a dropped coroutine destroys exactly the values it still stored *)
+Theorem C25_holds : forall n ops,
+  wf_C25 n ops = true -> ok_C25 n ops (run_C25 n ops) = true.
+Proof. exact holds. Qed.
 
-(** ... and the whole property holds for every history that never drops a coroutine which still
-    stores a value *)
-Theorem C25_holds_outside : forall n ops,
-  wf_C25 n ops = true -> no_defect_C25 n ops = true -> ok_C25 n ops (run_C25 n ops) = true.
-Proof. exact holds_outside. Qed.
+(** before the repair of finding #27 ([old_run_C25]: no [Drop for CoroutineLocal]) release on drop
+    failed, and only that: the map clauses held *)
+Theorem C25_refuted_before_repair :
+  exists n ops, wf_C25 n ops = true /\ ok_C25 n ops (old_run_C25 n ops) = false.
+Proof. exact refuted_before_repair. Qed.
+
+Theorem C25_old_map_refinement : forall n ops,
+  wf_C25 n ops = true -> ok_maps_C25 n ops (old_run_C25 n ops) = true.
+Proof. exact old_map_refinement. Qed.
 
 (** Ghost level ([st_live]: the boxes allocated and not freed): after any history the boxes still
-    allocated are exactly those of the values still stored plus those that were stored in a
-    coroutine when it was dropped; so outside the defect nothing but stored values is allocated, and
-    store / overwrite / remove never leak. *)
+    allocated are exactly those of the values still stored; store, overwrite, remove and drop never
+    leak. Before the repair: plus those stored in a coroutine when it was dropped. *)
 Theorem C25_live_cells_exact : forall n ops,
-  Permutation (st_live (final_C25 n ops)) (stored (final_C25 n ops) ++ leaked_C25 n ops).
+  Permutation (st_live (final_C25 n ops)) (stored (final_C25 n ops)).
 Proof. exact live_cells_exact. Qed.
 
-Theorem C25_no_leak_outside : forall n ops,
-  no_defect_C25 n ops = true -> Permutation (st_live (final_C25 n ops)) (stored (final_C25 n ops)).
-Proof. exact no_leak_outside. Qed.
+Theorem C25_old_live_cells_exact : forall n ops,
+  Permutation (st_live (old_final_C25 n ops)) (stored (old_final_C25 n ops) ++ old_leaked_C25 n ops).
+Proof. exact old_live_cells_exact. Qed.
 
 Example C25_nonvacuous :
   let ops := [Put 0 7 1 10; Put 1 7 2 20; Put 0 7 3 30; GetMut 0 7 (-4); Get 0 7; Get 1 7;
-              Remove 0 7; Get 0 7; DropCo 0; Remove 1 7; DropCo 1] in
-  wf_C25 2 ops = true /\ no_defect_C25 2 ops = true /\ ok_C25 2 ops (run_C25 2 ops) = true
+              Put 0 5 4 40; Remove 0 7; Get 0 7; Put 0 9 6 60; Put 0 7 5 50; DropCo 0; Remove 1 7; DropCo 1] in
+  wf_C25 2 ops = true /\ ok_C25 2 ops (run_C25 2 ops) = true
   /\ run_C25 2 ops = [ORes None []; ORes None []; ORes (Some (1, 10)) []; ORes (Some (3, 30)) [];
-                      ORes (Some (3, -4)) []; ORes (Some (2, 20)) []; ORes (Some (3, -4)) [];
-                      ORes None []; ODrop []; ORes (Some (2, 20)) []; ODrop []]
-  /\ ok_C25 2 ops (firstn 8 (run_C25 2 ops) ++ [ODrop [5]; ORes (Some (2, 20)) []; ODrop []]) = false.
+                      ORes (Some (3, -4)) []; ORes (Some (2, 20)) []; ORes None []; ORes (Some (3, -4)) [];
+                      ORes None []; ORes None []; ORes None []; ODrop [4; 5; 6]; ORes (Some (2, 20)) []; ODrop []]
+  /\ ok_C25 2 ops (firstn 11 (run_C25 2 ops) ++ [ODrop [4; 6]; ORes (Some (2, 20)) []; ODrop []]) = false
+  /\ ok_C25 2 ops (firstn 11 (run_C25 2 ops) ++ [ODrop [4; 5; 6]; ORes (Some (2, 20)) []; ODrop [2]]) = false
+  /\ ok_C25 2 ops (old_run_C25 2 ops) = false.
 Proof. repeat split; vm_compute; reflexivity. Qed.
 
 Print Assumptions C25_map_refinement.
 Print Assumptions C25_reads_latest.
 Print Assumptions C25_private.
-Print Assumptions C25_refuted_values_leaked_on_drop.
-Print Assumptions C25_holds_outside.
+Print Assumptions C25_holds.
+Print Assumptions C25_refuted_before_repair.
+Print Assumptions C25_old_map_refinement.
 Print Assumptions C25_live_cells_exact.
-Print Assumptions C25_no_leak_outside.
+Print Assumptions C25_old_live_cells_exact.
